@@ -17,7 +17,7 @@ WITNESS = {
     "get_many_from_sorted_mut": "select_many",
     "remove_nan_mut": "nanview",
     "argmin": "minmax", "argmax": "minmax", "min": "minmax", "max": "minmax",
-    "count_eq": "deviation", "count_neq": "deviation",
+    "count_eq": "deviation", "count_neq": "deviation", "sq_l2_dist": "deviation", "l1_dist": "deviation", "linf_dist": "deviation",
     "Histogram::add_observation": "histogram", "Histogram::new": "histogram",
     "EquiSpaced::n_bins": "strategies",
     "EquiSpaced::build": "strategies",
@@ -221,15 +221,15 @@ PROPS.update({
         "rule": "one case per (shape, data, weights, layout pair) or (axis, axis weights); non-trivial = at least 2 elements",
     },
     "C09": {
-        "level": "exploration",
-        "level_text": "proved part: Verus discharges on the extracted bodies of count_eq and count_neq (after the mechanical rewrites R11: `Zip::from(a).and(b).for_each(closure)` becomes a loop over the index-aligned pairs with the closure body as loop body, and R12: the crate's own guard macros are expanded from src/lib.rs) that for arrays of every dimensionality/layout an empty receiver gives EmptyInput, different shapes give an error, and otherwise count_eq is exactly the number of index positions holding equal elements - independent of the order in which Zip visits them (vstd's fold-permutation lemma) - and count_eq + count_neq is the number of elements. The distances (sq_l2/l1/linf and the derived float measures) are generic arithmetic folds whose exactness needs the concrete type's ring laws and absence of overflow: they are compared with exact i64 arithmetic on the real crate for every pairing of 5 layouts and 4 ownership kinds, and the derived measures bit for bit with their documented formulas",
-        "level_note": "trusted (proved part): A-ND n-D incl. Zip (each index exactly once, elements paired at the same index, unspecified order), slice ==, <[T]>::to_vec, PartialEq of the element type obeys its spec; the ShapeMismatch payload passes through `.into()` (not modelled by Verus: checked by enum:errors). bounded: enum:deviation - i64/i32 over {-7,0,3,1000}, all pairs of contents for <= 2 elements, sampled above, shapes up to 4-D. Float inputs 'within roundoff': not decided",
-        "technique": "Verus contract on count_eq/count_neq (loop over zipped pairs, fold-permutation lemma) + bounded enumeration against exact integer arithmetic for the distances",
+        "level": "proof",
+        "level_text": "Verus discharges on the extracted bodies of count_eq, count_neq, sq_l2_dist, l1_dist and linf_dist (after the mechanical rewrites R11: `Zip::from(a).and(b).for_each(closure)` becomes a loop over the index-aligned pairs with the closure body as loop body, and R12: the crate's guard macros are expanded from src/lib.rs), for arrays of every dimensionality and layout: an empty receiver gives EmptyInput, different shapes give an error, otherwise count_eq is exactly the number of index positions holding equal elements (independent of the order in which Zip visits them: vstd's fold-permutation lemma), count_eq + count_neq is the number of elements, and each distance is the fold of its documented term ((a-b)^2, |a-b|, running maximum of |a-b| from zero) with the element type's own arithmetic over all index-aligned pairs, each exactly once - and equals the fold in logical order whenever that fold is order-insensitive (commutative_foldl: true for integer addition and for max of a total order). The derived float measures (l2_dist, mean_abs_err, mean_sq_err, root_mean_sq_err, psnr) and the integer exactness are additionally compared on the real crate with exact i64 arithmetic / bit for bit with their documented formulas, for every pairing of 5 layouts and 4 ownership kinds",
+        "level_note": "trusted: A-ND n-D incl. Zip (each index exactly once, elements paired at the same index, unspecified order), slice ==, <[T]>::to_vec, the element type's operators follow their vstd specs and are defined for all operands (for machine integers this is a no-overflow hypothesis); the ShapeMismatch payload passes through `.into()` (not modelled by Verus: checked by enum:errors). Not proved: symmetry/zero-on-identical as algebraic facts and the derived float measures (bounded by enum:deviation); float inputs 'within roundoff': not decided. bounded: enum:deviation - i64/i32 over {-7,0,3,1000}, all pairs of contents for <= 2 elements, sampled above, shapes up to 4-D",
+        "technique": "Verus contracts on the extracted deviation kernels (loop over zipped pairs, fold-permutation lemma); bounded enumeration for the derived float measures",
         "design_ref": "DESIGN.md 4 (C09), 8a",
         "verus": [("deviation", "N")],
         "enum": [{"name": "deviation"}],
-        "assumptions": [A_VERUS, A_EXTRACT, A_ENUM, BOUNDED_NOTE, "A-ND (n-D) incl. Zip::for_each as stated in shim/zip.rs"],
-        "not_decided": ["float inputs (roundoff), big-integer element types", "exactness of sq_l2_dist / l1_dist / linf_dist beyond the enumerated inputs (needs ring laws of the element type)"],
+        "assumptions": [A_VERUS, A_EXTRACT, A_ENUM, "A-ND (n-D) incl. Zip::for_each as stated in shim/zip.rs", "A-NUM: generic Sub/Mul/AddAssign/abs/zero are deterministic and defined for all operands (arith_total)"],
+        "not_decided": ["float inputs (roundoff), big-integer element types beyond the generic statement", "l2_dist / mean_* / psnr as functions of the exact distances: bounded only"],
         "rule": "one case per (shape, contents of both operands, layout pair); non-trivial = at least 2 elements and operands differ",
     },
     "C11": {
